@@ -31,5 +31,15 @@ Definition obs_consistent (c : case) : bool :=
 Definition corr (c : case) : bool :=
   raw_eqb (load (c_fs c) (c_cwd c) (c_name c) (c_start c)) (c_raw c) && obs_consistent c.
 
-Definition spec (c : case) : bool := spec_ok (c_fs c) (c_cwd c) (c_start c) (c_name c) (c_abs c).
+(** the property quantifies over start *directories*: a start path that does
+    not exist is outside it (the implementation answers CollectionNotFound
+    without looking further up, which the correspondence still checks) *)
+Definition start_exists (c : case) : bool :=
+  match listdir (c_fs c) (dir_str (abs_comps (c_cwd c) (c_start c))) with
+  | Some _ => true
+  | None => false
+  end.
+
+Definition spec (c : case) : bool :=
+  negb (start_exists c) || spec_ok (c_fs c) (c_cwd c) (c_start c) (c_name c) (c_abs c).
 
